@@ -85,6 +85,8 @@ inductive Reason
   | pathForm | missingPseudo | hostConflict | hostMismatch | endStreamWithLength | trailerNotEnd
   /-- kawa storage exhausted while a header was being stored (`OversizedPseudoValue` in the code) -/
   | storageFull
+  /-- `:status` is not exactly three ASCII digits -/
+  | invalidStatus
 deriving DecidableEq, Repr
 
 def Reason.cls : Reason → RejectClass
@@ -528,5 +530,82 @@ def handleTrailerS (lim : Limits) (cap used : Nat) (endStream : Bool) (hl : List
   if endStream && trailerScan lim (min lim.maxListSize Consts.hdrMaxTrailerBytes) cap hl (0, 0, []) used then
     .error .storageFull
   else handleTrailer lim endStream hl
+
+-- ------------------------------------------- HTTP/2 response header block --
+/-
+The response arm of `handle_header` (an HTTP/2 backend answering): `:status`
+exactly three digits, pseudo-header order / uniqueness, regular headers through
+`write_regular_header`, then the END_STREAM / framing choice with the
+body-exempt status codes (1xx, 204, 304).
+-/
+def sStatus : Bytes := [58, 115, 116, 97, 116, 117, 115]  -- ':status'
+def sFromH2 : Bytes := [70, 114, 111, 109, 72, 50]  -- 'FromH2'
+
+structure Resp where
+  status : Bytes
+  fields : List Field
+  body : BodySize
+deriving DecidableEq, Repr
+
+/-- the closure of the response arm; the `method` slot of the state holds `:status` -/
+def perHeaderResp (lim : Limits) (s : VS) (k v : Bytes) : Except Reason VS :=
+  if eqNoCase k sStatus then
+    if v.length != 3 || !v.all isDigit then .error .invalidStatus
+    else (storePseudo s.method s.regular v).map fun x => { s with method := some x }
+  else if k.head? == some 58 then .error .unknownPseudo
+  else writeRegular lim { s with regular := true } k v
+
+def stepHeaderResp (lim : Limits) (s : VS) (kv : Bytes × Bytes) : Except Reason VS :=
+  let decoded := s.decoded + kv.1.length + kv.2.length + Consts.hdrFieldSizeOverhead
+  if decoded > lim.maxListSize then .error .overBudget
+  else
+    let count := s.count + 1
+    if count > lim.maxFields then .error .tooManyFields
+    else match classifyHeader kv.1 kv.2 with
+      | some r => .error r
+      | none => perHeaderResp lim { s with decoded := decoded, count := count } kv.1 kv.2
+
+def foldHeadersResp (lim : Limits) : List (Bytes × Bytes) → VS → Except Reason VS
+  | [], s => .ok s
+  | kv :: rest, s =>
+    match stepHeaderResp lim s kv with
+    | .error r => .error r
+    | .ok s' => foldHeadersResp lim rest s'
+
+/-- 1xx, 204, 304: no body by definition -/
+def bodyExempt (status : Bytes) : Bool :=
+  let code := decVal status
+  (100 ≤ code && code < 200) || code == 204 || code == 304
+
+/-- the END_STREAM / framing part for a response (`edit` = the `on_headers` callback) -/
+def finishResp (endStream : Bool) (edit : List Field → List Field) (s : VS) : Except Reason Resp :=
+  match s.method with
+  | none => .error .missingPseudo
+  | some st =>
+    let fields := edit s.fields
+    if endStream then
+      match s.body with
+      | .length n => if n > 0 && !bodyExempt st then .error .endStreamWithLength else .ok { status := st, fields, body := s.body }
+      | .empty =>
+        if bodyExempt st then .ok { status := st, fields, body := .empty }
+        else .ok { status := st, fields := fields ++ [.hdr cContentLength [48]], body := .length 0 }
+      | .chunked => .ok { status := st, fields, body := .chunked }
+    else
+      match s.body with
+      | .empty => .ok { status := st, fields := fields ++ [.hdr cTransferEncoding sChunked], body := .chunked }
+      | b => .ok { status := st, fields, body := b }
+
+/-- `handle_header` on a response stream -/
+def validateResponse (lim : Limits) (endStream : Bool) (edit : List Field → List Field) (hl : List (Bytes × Bytes)) :
+    Except Reason Resp :=
+  match foldHeadersResp lim hl {} with
+  | .error r => .error r
+  | .ok s => finishResp endStream edit s
+
+/-- header lines of the response head written to an HTTP/1.1 client -/
+def respLines (r : Resp) : List (Bytes × Bytes) := emitFields r.fields []
+
+def serializeResp (r : Resp) : Bytes :=
+  sHttp11 ++ [32] ++ r.status ++ [32] ++ sFromH2 ++ crlf ++ (respLines r).flatMap headerLine ++ crlf
 
 end Sozu.Headers
